@@ -21,7 +21,94 @@ VALID_CODES = [1, 10, 20, 21, 22, 31, 32, 33, 34, 35, 36, 37, 38, 39, 41, 42, 43
                604, 605]
 
 
+_refused_cache = {}
+
+
+def refused_frames(seed, n=400):
+    """Mutated / truncated encodings of valid commands (harness `codec-mutate`) that the Lean codec model
+    REFUSES (`codecjudge decode` answers NONE): bodies (code + payload) of frames that are not valid requests."""
+    import subprocess, os, tempfile, vlib
+    if seed in _refused_cache:
+        return _refused_cache[seed]
+    cj = f"{vlib.VERIF}/lean/.lake/build/bin/codecjudge"
+    out = subprocess.run([vlib.HBIN, "codec-mutate", str(seed), str(n)], stdout=subprocess.PIPE, stderr=subprocess.DEVNULL, text=True).stdout
+    lines = [l for l in out.splitlines() if l.strip()]
+    with tempfile.NamedTemporaryFile("w", suffix=".txt", delete=False, dir=vlib.WORK) as f:
+        f.write("\n".join(lines) + "\n")
+        path = f.name
+    try:
+        dec = subprocess.run([cj, "decode"], stdin=open(path), stdout=subprocess.PIPE, text=True).stdout.splitlines()
+    finally:
+        os.remove(path)
+    storage_kinds = ("RetainedMessage", "RetainedBatch", "StateEntry", "EntryCommand", "Identifier", "Consumer",
+                     "Partitioning", "PollingStrategy", "Permissions", "Headers", "Message")
+    res = []
+    for l, d in zip(lines, dec):
+        kind, hx = l.split(" ", 1)
+        # login / logout commands change the session even when refused later; keep plain requests only
+        if kind in storage_kinds or kind.startswith("Login") or kind == "LogoutUser":
+            continue
+        if d.startswith("NONE") and len(hx) >= 8 and len(hx) // 2 < 5000:
+            res.append((kind, hx.strip()))
+    _refused_cache[seed] = res
+    return res
+
+
 def gen(rng, focus, k=None, maxops=40):
+    if rng.random() < 0.4:
+        return gen_authed(rng, focus, k, maxops)
+    return gen_raw(rng, focus, k, maxops)
+
+
+def gen_authed(rng, focus, k=None, maxops=40):
+    """an AUTHENTICATED (root) raw connection sends frames whose body is a mutated valid command that the codec
+    model refuses: each must be answered with an error or a closed connection and change nothing."""
+    cfg = gen_storage.draw_cfg(rng, k, {"dedup": 0})
+    ops = []
+    emit = ops.append
+    emit("conn 0 tcp")
+    emit("login 0 iggy iggy")
+    emit("clock 1000000")
+    emit("create-stream 0 1 s1")
+    emit("create-topic 0 #1 1 t1 2 never unlimited -")
+    emit("create-group 0 #1 #1 1 g1")
+    emit("create-user 0 alice secretpw12 active 1111111111")
+    emit("clock 1000010")
+    emit("send 0 #1 #1 pid:1 1:20:101:0,2:20:102:1")
+
+    def observe():
+        emit("streams 0")
+        emit("stream 0 #1")
+        emit("topic 0 #1 #1")
+        emit("groups 0 #1 #1")
+        emit("poll 0 #1 #1 1 c:#9 offset:0 1000 0")
+        emit("poll 0 #1 #1 2 c:#9 offset:0 1000 0")
+        emit("users 0")
+        emit("get-offset 0 #1 #1 1 c:#1")
+    observe()
+    frames = refused_frames(rng.randint(1, 6))
+    r = 0
+    emit(f"raw-open {r}")
+    emit(f"raw-send {r} {login_frame().hex()}")
+    for _ in range(rng.randint(6, 25)):
+        kind, hx = rng.choice(frames)
+        body = bytes.fromhex(hx)
+        emit(f"raw-refused {r} {(len(body).to_bytes(4, 'little') + body).hex()}")
+        if rng.random() < 0.15:
+            # the connection may have been closed by a panic of its task: open a new one
+            emit(f"raw-close {r}")
+            r += 1
+            emit(f"raw-open {r}")
+            emit(f"raw-send {r} {login_frame().hex()}")
+        if rng.random() < 0.2:
+            observe()
+    observe()
+    emit("restart")
+    observe()
+    return cfg, ops
+
+
+def gen_raw(rng, focus, k=None, maxops=40):
     cfg = gen_storage.draw_cfg(rng, k, {"dedup": 0})
     ops = []
     emit = ops.append
